@@ -165,6 +165,36 @@ pub fn hyp64(x: f64, y: f64) -> f64 {
     (x * x + y * y).sqrt()
 }
 
+/// `powi` is an over-approximated intrinsic in CBMC; replaced by repeated multiplication (exact for |n| <= 4)
+pub fn powi64(x: f64, n: i32) -> f64 {
+    let mut r = 1.0f64;
+    let mut k = 0;
+    let m = if n < 0 { -n } else { n };
+    while k < m && k < 4 {
+        r *= x;
+        k += 1;
+    }
+    if n < 0 {
+        1.0 / r
+    } else {
+        r
+    }
+}
+pub fn powi32(x: f32, n: i32) -> f32 {
+    let mut r = 1.0f32;
+    let mut k = 0;
+    let m = if n < 0 { -n } else { n };
+    while k < m && k < 4 {
+        r *= x;
+        k += 1;
+    }
+    if n < 0 {
+        1.0 / r
+    } else {
+        r
+    }
+}
+
 // recorders: deterministic surrogates that log the arguments they are called with
 pub const LOGN: usize = 16;
 pub static mut LOG64: [f64; LOGN] = [0.0; LOGN];
@@ -208,6 +238,13 @@ pub fn rec_exp64(x: f64) -> f64 {
 pub fn rec_exp32(x: f32) -> f32 {
     log32(x);
     x
+}
+/// `exp` surrogate with distinct constant results: the i-th call returns 2^i (and logs its argument), so that
+/// everything computed from the results is constant arithmetic while the arguments stay symbolic
+pub fn rec_exp_pow2_64(x: f64) -> f64 {
+    let i = nlog64();
+    log64(x);
+    (1u64 << (i as u32 & 31)) as f64
 }
 /// `powf` surrogate: returns the base, logs (base, exponent)
 pub fn rec_powf64(b: f64, e: f64) -> f64 {
